@@ -55,9 +55,17 @@ def skip_rules(F, rep, tk):
     bad = {k: (tk.rules.get(k, {}).get("pattern")) for k, v in want_literals.items() if tk.rules.get(k, {}).get("pattern") != v or tk.rules[k]["kind"] != "token"}
     rep.ob("TABLE", "operator-literals", not bad, "the %d operator / punctuation tokens carry their documented spelling (%s)" % (len(want_literals), bad or "ok"),
            sites=len(want_literals))
-    want_rx = {"Identifier": "[A-Za-z_][A-Za-z0-9_]*", "Int": r"[\d]+", "String": '"[^"]*"', "Comment": r"//[^\n]*"}
+    want_rx = {"Identifier": "[A-Za-z_][A-Za-z0-9_]*", "Int": "[0-9]+", "String": '"[^"]*"', "Comment": r"//[^\n]*"}
     bad = {k: tk.rules.get(k, {}).get("pattern") for k, v in want_rx.items() if tk.rules.get(k, {}).get("pattern") != v}
     rep.ob("TABLE", "variable-tokens", not bad, "identifier / int / string / comment patterns as documented (%s)" % (bad or "ok"), sites=len(want_rx))
+    # the documented token set is ASCII: in logos (as in the regex crate) \d, \w and \s are Unicode classes, so `[\d]+`
+    # also swallows Arabic-Indic digits (`1٣` is one Error token, not Int then Error) and makes the automaton read into the
+    # bytes of any character that shares a lead byte with some Unicode digit (`1.` before an emoji is an Error, not a Float)
+    import re as _re
+    wide = {n: tk.rules[n]["pattern"] for n in tk.order if tk.rules[n]["kind"] == "regex" and tk.rules[n]["pattern"]
+            and _re.search(r"\\[dDwWsS]|\\p\{|\[\[:", tk.rules[n]["pattern"])}
+    rep.ob("TABLE", "ascii-classes-only", not wide,
+           "no token pattern uses a Unicode-wide class (\\d, \\w, \\s, \\p{..}): %s" % (wide or "none"), sites=len(tk.order))
     kws = tk.keywords()
     rep.ob("TABLE", "keywords", len(kws) >= 30 and all(tk.rules[v]["kind"] in ("token", "regex") for v in kws.values()),
            "%d keywords are literal tokens that win over the identifier pattern: %s" % (len(kws), sorted(kws)), sites=len(kws))
